@@ -43,7 +43,7 @@ def describe(tier):
         "rule": f"AHBs with 2-3 free-text data elements in {len(LAYOUTS)} layouts (same segment, two segments, two groups, nested group) carrying "
                 f"different entered inputs ({len(INPUT_SETS)} input pairs / {len(INPUT_SETS3)} triples incl. None and '') and format constraints "
                 "that share one FC key; the FC evaluator answers fulfilled=(text=='good') and echoes the text it was given; RC, FC and "
-                "package evaluators all suspend; one element sits behind a package (a yield BEFORE the ContextVar is set); every layout is "
+                "package evaluators all suspend (in a subset of the cases the shared constraint is answered by a PLAIN evaluate method instead); one element sits behind a package (a yield BEFORE the ContextVar is set); every layout is "
                 "also run in an ambient context in which the ContextVar already holds a foreign text; three layouts are also run as TWO validations of two AHBs (other inputs) "
                 "started concurrently as tasks in one loop, each judged like a single validation. ALL completion orders of the pending "
                 f"awaitables are enumerated on the virtual event loop for 2 elements (3 elements: "
@@ -72,6 +72,8 @@ def plan(tier, seed):
                         continue
                     items.append({"layout": lname, "exprs": ei, "inputs": ii, "ambient": ambient, "early": b["early"],
                                   "order_bound": None if n == 2 else b["three_bound"]})
+                    if ambient is None and ei in (0, 2, 4) and ii % 3 == 0:
+                        items.append(dict(items[-1], sync_fc=True))
     # TWO validations of two AHBs running concurrently in one event loop (a server handling two messages), each started as a task
     for lname in ("same-segment-2", "two-segments-2", "nested-group-2"):
         for ei in (0, 1, 4):
@@ -131,8 +133,10 @@ def _factory(item, zero, solo=None):
     top, elems = _model(item)
 
     def factory(sched):
+        # "sync_fc": constraint 950 is answered by a PLAIN evaluate method (which, like every harness method, reads its answers
+        # from context-local storage), the others by coroutine methods
         env = c12._env(sched, rc={"1": "F"}, fc={"950": _fc_answer, "951": (True, None)}, packages={"4P": "[1]", "5P": "[1][950]"},
-                       yields={"*": 0} if zero else None)
+                       yields={"*": 0} if zero else None, sync={("fc", "950")} if item.get("sync_fc") else ())
 
         async def go():
             if item["ambient"] is not None:
